@@ -103,6 +103,9 @@ def content_shape(node, path, out):
         if "scalarValue" in node:
             out.append("%s: %s node with scalarValue" % (path, tt))
         for k, c in enumerate(node.get("children") or []):
+            # a child of an object is a property: it carries its key (which may be the empty string)
+            if tt == "object" and isinstance(c, dict) and not isinstance(c.get("key"), str):
+                out.append("%s/%d: a property of an object node is emitted without its key" % (path, k))
             content_shape(c, "%s/%d" % (path, k), out)
     else:
         if "children" in node:
